@@ -117,7 +117,7 @@ pub fn enumerated(max_len: usize, batch: usize) -> Vec<KuBatch> {
 }
 
 fn long_spec() -> BoxedStrategy<KuSpec> {
-    let word = proptest::string::string_regex("[a-cé名]{1,3}").unwrap();
+    let word = proptest::string::string_regex("[a-eAE\u{301}é名.]{1,3}").unwrap();
     (
         proptest::collection::vec((word, 0usize..3, 0usize..3, 0u32..40), 5..150),
         0usize..RES.len(),
@@ -154,7 +154,7 @@ pub fn random_batch() -> BoxedStrategy<KuBatch> {
 }
 
 pub fn run(run: &mut Run) {
-    run.rule = "every rendered file spells `name=value` in one of three ways (`=`, ` = `, ` =`), drawn from its first block. enumerated: every line sequence of length 0..k (k=4 quick, 5 thorough) over a 16-line alphabet (repeated keys, a line whose string mentions an end tag, keys differing only in indentation/trailing blanks, keys differing only outside the regex group, blank and non-matching lines) x {bare attribute, empty value, group regex in both spellings, plain regex, a regex anchored at the line end, a regex with an unnamed group in front of the `value` group}, the bare form also together with keep-sorted / keep-sorted=desc on the same block (both rules' diagnostics expected); random: blocks of 5..150 lines with and without duplicates, a quarter of them holding 1..3 nested blocks (whose tag comments are lines of the outer block). Non-trivial block = at least 2 keys and (a duplicate key, a skipped line, or a repeated line); distinct by (batch, block).".into();
+    run.rule = "every rendered file spells `name=value` in one of three ways (`=`, ` = `, ` =`), drawn from its first block. enumerated: every line sequence of length 0..k (k=4 quick, 5 thorough) over a 16-line alphabet (repeated keys, a line whose string mentions an end tag, keys differing only in indentation/trailing blanks, keys differing only outside the regex group, blank and non-matching lines) x {bare attribute, empty value, group regex in both spellings, plain regex, a regex anchored at the line end, a regex with an unnamed group in front of the `value` group}, the bare form also together with keep-sorted / keep-sorted=desc on the same block (both rules' diagnostics expected); random: blocks of 5..150 lines with and without duplicates (keys of 1..3 characters over `a`-`e`, `A`, `E`, `é`, a combining acute accent, `名` and `.`, so that keys differing only in letter case, in composed / decomposed spelling or in a trailing dot sit next to real duplicates: they are different keys), a quarter of them holding 1..3 nested blocks (whose tag comments are lines of the outer block). Non-trivial block = at least 2 keys and (a duplicate key, a skipped line, or a repeated line); distinct by (batch, block).".into();
     run.assumptions = vec![
         "content lines are shell/ruby words (block discovery itself is C03)".into(),
         "regexes come from a fixed family with hand-written extractors".into(),
